@@ -140,9 +140,12 @@ def rule_config(ck, R):
                             g = vv if kk == k else v
                 if g is None or (strip_cast(g) != v and not (g[0] == 'struct' and g[1] == v)):
                     bad = '%s is %s after the call, expected %s' % (k, 'left unchanged' if g is None else 'set to ' + fmt(g), fmt(v))
-            extra = [k for k in got if not any(k == w or k.startswith(w + '.') for w in want)]
+            # a setter leaves the OTHER setters' configuration alone (fields this table does not know - bookkeeping the
+            # instance may carry besides its configuration - are not judged here)
+            others = {w for f2, w2 in table.items() if f2 != fn for w in w2}
+            extra = [k for k in got if any(k == w or k.startswith(w + '.') for w in others) and not any(k == w or k.startswith(w + '.') for w in want)]
             if extra:
-                bad = bad or 'also modifies %s' % extra[0]
+                bad = bad or 'also modifies %s, which another setter configures' % extra[0]
         ck.verdict(bad is None, 'C06.b', fn + ':config', R.where(fn),
                    'stores %s' % ', '.join(sorted(want)) if bad is None else bad)
 
@@ -417,6 +420,9 @@ def run(ck):
     rule_c(ck, R)
     rule_decoder_state(ck, R)
     rule_decoder_owners(ck, R)
+    ck.rule('C06.j', 'marks an operation sets in the instance while it works (busy / in-progress flags) are taken back on every way out of it: a request that follows a failed send or receive is served like any other')
+    from .common import bracket_rule
+    bracket_rule(ck, 'C06.j', R.u, lambda: R.engine(set()), ('register-protocol.c', 'register-protocol.h'))
     # d: echo rules live in c08.rule_h / rule_fg; re-evaluate under this property
     from . import c08
     orig_v, orig_viol, orig_floor = ck.verdict, ck.violation, ck.floor
